@@ -333,6 +333,10 @@ func paramNames(callee *ssa.Function, c *Contract) []string {
 
 func (tr *Tr) applyContract(fr *frame, callee *ssa.Function, c *Contract, args []Val, rt types.Type, pos token.Pos, cc *ssa.CallCommon) Val {
 	tr.vc.UsedContr[c.Full] = true
+	if c.FrameOnly && !c.Assumed && (tr.vc.Contract == nil || !tr.vc.Contract.FrameOnly) {
+		// the callee's contract says what it writes, not that it does not panic
+		tr.vc.Abstract["call of a frame_only contract (panics of the callee are not excluded): "+c.Key]++
+	}
 	names := map[string]Val{}
 	for i, n := range paramNames(callee, c) {
 		if i < len(args) {
@@ -659,6 +663,18 @@ func lastReturn(fn *ssa.Function) (*ssa.Return, bool) {
 func (tr *Tr) invoke(fr *frame, cc *ssa.CallCommon, args []Val, rt types.Type, pos token.Pos) Val {
 	recv := tr.val(fr, cc.Value)
 	tr.safety(fr, "nil", not(eq(app("i.typ", recv.T), "0")), pos, "method call on nil interface "+cc.Method.Name())
+	// evident dynamic type (the value was made from a concrete type in this function or in one it was
+	// inlined into): the call is the concrete method -- its contract, or its body when inlinable. The
+	// nil-interface case is the obligation above.
+	if dt := tr.ifaceDyn[recv.T]; dt != nil {
+		if m := tr.G.prog.LookupMethod(dt, cc.Method.Pkg(), cc.Method.Name()); m != nil {
+			if _, hasC := tr.G.contracts.Funcs[m.String()]; hasC || tr.canInline(fr, m) {
+				all := append([]Val{tr.unboxIface(recv.T, dt)}, args...)
+				tr.vc.Inlined["invoke resolved: "+shortFuncName(m)]++
+				return tr.staticCall(fr, m, all, nil, rt, pos, nil)
+			}
+		}
+	}
 	// interface-level contract: "<pkg>.<Iface>.<Method>"
 	key := ifaceMethodKey(cc.Value.Type(), cc.Method.Name())
 	if c := tr.G.contracts.Funcs[key]; c != nil {
